@@ -771,6 +771,9 @@ func (e *Exec) emitRefinements(st *State, fr *Frame, res Value, in *ssa.Return) 
 			}
 			g, cerr := env.tryEvalBool(en.E)
 			if cerr != "" {
+				if !e.refineNotes[fmt.Sprintf("%s: ensures#%d cannot be read through the coupling of %s (%s): not linked", key, i+1, e.unit, cerr)] {
+					e.refineGaps[key]++
+				}
 				e.refineNotes[fmt.Sprintf("%s: ensures#%d cannot be read through the coupling of %s (%s): not linked", key, i+1, e.unit, cerr)] = true
 				continue
 			}
